@@ -939,7 +939,7 @@ fn c07_write_reaches_one_device_48k() {
 }
 
 // @harness
-// @prop C07
+// @prop C07 C06
 // @tier quick
 // @timeout 900
 // @fn ZXController::write_io; ZXController::set_border_color; ZXController::write_7ffd; ZXController::write_ay_port; ZXController::select_ay_reg; IoExtender dispatch
